@@ -344,6 +344,75 @@ func freshObjectCall(c *ssa.Call) bool {
 
 // wholeStructForward: load of field f of a local struct variable that is assigned exactly once, as a whole, by a store
 // dominating the load (x := f(); … x.f …): returns the stored struct value and the field name.
+// structField: field idx of a struct VALUE sv (a parameter object passed or returned by value): follows parameters to the
+// call site and module functions that build the struct as a literal and return it, to the value stored into that field.
+func (e *Env) structField(sv ssa.Value, idx int, depth int) (ssa.Value, *Env) {
+	if depth > 6 {
+		return nil, nil
+	}
+	switch x := sv.(type) {
+	case *ssa.Parameter:
+		if a, pe := e.actual(x); a != nil {
+			return pe.structField(a, idx, depth+1)
+		}
+	case *ssa.Call:
+		sc := x.Call.StaticCallee()
+		if sc == nil || len(sc.Blocks) == 0 || sc.Pkg == nil || !strings.HasPrefix(sc.Pkg.Pkg.Path(), modPath) || e.depth >= maxDepth {
+			return nil, nil
+		}
+		rets := returnsOf(sc)
+		if len(rets) != 1 || len(rets[0].Results) != 1 {
+			return nil, nil
+		}
+		return e.Sub(x, sc).structField(rets[0].Results[0], idx, depth+1)
+	case *ssa.UnOp:
+		if x.Op != token.MUL {
+			return nil, nil
+		}
+		al, ok := x.X.(*ssa.Alloc)
+		if !ok || al.Referrers() == nil {
+			return nil, nil
+		}
+		// a literal built in a local and loaded once as a whole: the store into the field
+		var val ssa.Value
+		n := 0
+		for _, r := range *al.Referrers() {
+			switch r := r.(type) {
+			case *ssa.FieldAddr:
+				if r.Referrers() == nil {
+					continue
+				}
+				for _, rr := range *r.Referrers() {
+					st, isStore := rr.(*ssa.Store)
+					if !isStore {
+						if _, isLoad := rr.(*ssa.UnOp); !isLoad {
+							return nil, nil
+						}
+						continue
+					}
+					if r.Field == idx {
+						n++
+						val = st.Val
+					}
+				}
+			case *ssa.UnOp, *ssa.DebugRef:
+			case *ssa.Store:
+				if r.Addr == ssa.Value(al) {
+					// a spilled copy of another struct value
+					return e.structField(r.Val, idx, depth+1)
+				}
+				return nil, nil
+			default:
+				return nil, nil
+			}
+		}
+		if n == 1 {
+			return val, e
+		}
+	}
+	return nil, nil
+}
+
 func wholeStructForward(u *ssa.UnOp) (ssa.Value, string) {
 	fa, ok := u.X.(*ssa.FieldAddr)
 	if !ok {
@@ -364,11 +433,21 @@ func wholeStructForward(u *ssa.UnOp) (ssa.Value, string) {
 			}
 		case *ssa.FieldAddr:
 			for _, rr := range *r.Referrers() {
-				if _, isLoad := rr.(*ssa.UnOp); !isLoad {
-					return nil, "" // a field is stored to / its address escapes
+				if _, isLoad := rr.(*ssa.UnOp); isLoad {
+					continue
 				}
+				// a store into a field on a branch from which this load cannot be reached does not concern it
+				if fs, isStore := rr.(*ssa.Store); isStore && fs.Addr == ssa.Value(r) && !instrReaches(u.Parent(), fs, u, nil) {
+					continue
+				}
+				return nil, "" // a field is stored to on the way / its address escapes
 			}
 		case *ssa.UnOp, *ssa.DebugRef:
+		case *ssa.Call:
+			// a method called on the local (value or pointer receiver) after this load cannot change what was loaded
+			if instrReaches(u.Parent(), r, u, nil) {
+				return nil, ""
+			}
 		default:
 			return nil, ""
 		}
@@ -753,6 +832,9 @@ func (e *Env) Term(v ssa.Value) string {
 	case *ssa.FieldAddr:
 		return e.Term(v.X) + "." + fieldName(v.X.Type(), v.Field)
 	case *ssa.Field:
+		if w, we := e.structField(v.X, v.Field, 0); w != nil {
+			return we.Term(w)
+		}
 		return e.Term(v.X) + "." + fieldName(v.X.Type(), v.Field)
 	case *ssa.IndexAddr:
 		if be, base, off, ok := e.sliceBase(v.X, 0); ok {
@@ -795,6 +877,11 @@ func (e *Env) Term(v ssa.Value) string {
 				return e.Term(f)
 			}
 			if sv, fld := wholeStructForward(v); sv != nil {
+				if fa, ok := v.X.(*ssa.FieldAddr); ok {
+					if w, we := e.structField(sv, fa.Field, 0); w != nil {
+						return we.Term(w) // a field of a parameter object passed by value
+					}
+				}
 				return e.Term(sv) + "." + fld
 			}
 			if w, we := e.ctorField(v); w != nil {
